@@ -461,7 +461,7 @@ class LAct:
 
 
 ASSET_KINDS = ('source', 'handler', 'proc', 'buffer', 'gate', 'batcher', 'sink', 'maintainer', 'scheduler',
-               'psensor', 'osensor', 'cms')
+               'psensor', 'osensor', 'cms', 'nestcms')
 
 
 def make_asset(lib, kind, name, ctx):
@@ -490,6 +490,15 @@ def make_asset(lib, kind, name, ctx):
         return lib.OutputPartSensor(ctx['proc'](), [lib.AttributeProbe('quality', None)], name=name)
     if kind == 'cms':
         return lib.Cms(None, name=name)
+    if kind == 'nestcms':
+        # an asset that builds another asset from inside its own initialize()
+        class NestCms(lib.Cms):
+            def initialize(self, env):
+                super().initialize(env)
+                if getattr(self, 'child', None) is None:
+                    self.child = lib.PeriodicSensor(0.5, [lib.AttributeProbe('x', ctx['target'])], name=self.name + '_child')
+                    ctx['on_child'](self.child)
+        return NestCms(None, name=name)
     raise HarnessError(kind)
 
 
@@ -550,6 +559,14 @@ def run_c20_registry(case):
         return p
 
     ctx['proc'] = a_proc
+
+    def on_child(child):
+        keep_alive.append(child)
+        systems[-1][1].append(child)
+        by_id[child.id] = child
+        stats['reach']['created_inside_initialize'] = stats['reach'].get('created_inside_initialize', 0) + 1
+
+    ctx['on_child'] = on_child
     step = 0
     try:
         for step, op in enumerate(case['prog'], 1):
@@ -562,9 +579,13 @@ def run_c20_registry(case):
                 sysm, lst = systems[-1]
                 name = op[2]
                 was_running = sysm._simulation_is_initialized
+                n_before = len(lst)
                 a = make_asset(lib, op[1], name, ctx)
                 keep_alive.append(a)
-                lst.append(a)
+                if op[1] == 'nestcms':
+                    lst.insert(n_before, a)  # a child built inside its initialize() registered after it
+                else:
+                    lst.append(a)            # helper assets (an output sensor's processor) were built before it
                 by_id[a.id] = a
                 stats['assets_created'] += 1
                 if op[1] != 'source' and len(op) > 3 and op[3] is not None:
@@ -729,13 +750,23 @@ def _observe_late(lib, case, late):
         env.schedule_event(t, -2, LAct(fn, name), pr, name)
 
     pr = p['pr']
+    between = case.get('when') == 'between'
+
+    def run_late(mk_fn, total):
+        """construct from inside an event at tau, or between two simulate() calls at tau"""
+        if between:
+            system.simulate(tau, print_summary=False)
+            mk_fn()
+            system.simulate(total - tau, print_summary=False)
+        else:
+            at(tau, pr, mk_fn, 'mk')
+            system.simulate(total, print_summary=False)
     if sc == 'source':
         def mk():
             s = lib.Source('lsrc', cycle_time=p['ct'], starting_parts=INF if p['parts'] is None else p['parts'])
             lib.Sink('lsink', upstream=[s], cycle_time=p['sink_ct'])
         if late:
-            at(tau, pr, mk, 'mk')
-            system.simulate(T, print_summary=False)
+            run_late(mk, T)
             shift = tau
         else:
             mk()
@@ -751,8 +782,7 @@ def _observe_late(lib, case, late):
             s.register_object('obj', lambda sch, o, t, st: log.append((t, st)))
             made['s'] = s
         if late:
-            at(tau, pr, mk, 'mk')
-            system.simulate(T, print_summary=False)
+            run_late(mk, T)
             shift = tau
         else:
             mk()
@@ -769,8 +799,7 @@ def _observe_late(lib, case, late):
             made['s'] = lib.PeriodicSensor(p['interval'], [lib.AttributeProbe('x', tgt)], name='lsens',
                                            data_capacity=INF if p['cap'] is None else p['cap'])
         if late:
-            at(tau, pr, mk, 'mk')
-            system.simulate(T, print_summary=False)
+            run_late(mk, T)
             shift = tau
         else:
             mk()
@@ -858,11 +887,12 @@ def _observe_late(lib, case, late):
                 first.block_input = True
             made['first'], made['dev'] = first, d
         if late:
-            at(tau, pr, lambda: mk(False), 'mk')
+            run_late(lambda: mk(False), T)
         else:
             mk(True)
-            at(tau, pr, lambda: setattr(made['first'], 'block_input', False), 'unblock')
-        system.simulate(T, print_summary=False)
+            # between two runs the device appears after every event of instant tau: the twin unblocks last
+            at(tau, 1.5 if between else pr, lambda: setattr(made['first'], 'block_input', False), 'unblock')
+            system.simulate(T, print_summary=False)
         obs['deliveries'] = [r[0] for r in env.simulation_data.get('received_part', {}).get('csink', [])]
         obs['count'] = system.find_assets(name='csink')[0].received_parts_count if system.find_assets(name='csink') else None
         if kind == 'proc' and made.get('dev') is not None:
@@ -877,7 +907,8 @@ def _observe_late(lib, case, late):
 
 def run_c20_late(case):
     lib = core.load_library()
-    stats = {'dispatches': 0, 'late_scenarios': 1, 'reach': {case['scenario']: 1}, 'sim_time': case['horizon']}
+    stats = {'dispatches': 0, 'late_scenarios': 1, 'reach': {case['scenario']: 1, 'when_' + case.get('when', 'event'): 1},
+             'sim_time': case['horizon']}
     sc = case['scenario']
     cls = {'source': 'Source', 'scheduler': 'ActionScheduler', 'psensor': 'PeriodicSensor', 'osensor': 'OutputPartSensor',
            'maintainer': 'Maintainer', 'proc': 'PartProcessor'}.get(sc, sc)
@@ -933,7 +964,8 @@ def gen_c20_late(rng, scenarios=LATE_SCENARIOS):
     else:
         p.update(ct=rng.choice((0.5, 1, 2)), parts=rng.choice((None, 3, 6)), dct=rng.choice((0, 0.25, 0.5, 1)),
                  sink_ct=rng.choice((0, 0.5)))
-    return {'engine': 'lifesim_late', 'scenario': sc, 'tau': tau, 'horizon': T, 'params': p,
+    when = 'between' if (sc not in ('osensor', 'maintainer') and rng.random() < 0.35) else 'event'
+    return {'engine': 'lifesim_late', 'scenario': sc, 'tau': tau, 'horizon': T, 'params': p, 'when': when,
             'tiebreak': core.gen_tiebreak(rng), 'id_offset': rng.choice((0, 21))}
 
 
